@@ -601,8 +601,255 @@ def _case_net(case, out):
                         % (i, eq, ri.ssto(net.species_labels()), ri.psto(net.species_labels()), species)))
 
 
+# ---- E2: operation histories on ONE Reaction object ---------------------------------------------------
+#
+# The statement's "the equilibrium constant is their ratio", "splitting it gives ... the same constants" speak
+# about the reaction's *current* constants; a Reaction is mutable (kf / kr properties, set_k).  So every
+# observer must, after any sequence of operations, agree with a FRESH Reaction constructed directly with the
+# constants the object should now hold (differential oracle), and K must be the exact ratio of the object's
+# own kf / kr (ratio oracle).  A rejected assignment leaves the constant it was aimed at as it was.
+
+HIST_RX = [("A -> B", si.DEFAULT), ("A + B -> C", si.MIXED[3]), ("-> 2 A", si.DEFAULT),
+           ("2 A + A -> 0 B + 2 C", si.MIXED[0])]            # orders 1/1, 2/1, 0/2, 3/2
+HIST_OPS = ["K", "EC", "kf=scalar", "kf=str", "kf=dict", "kf=zero", "kr=scalar", "kr=str", "kr=dict", "kr=zero",
+            "set_k=scalars", "set_k=dict+zero", "split", "to_string", "dims", "kr=bad", "set_k=badkf", "fork", "swap"]
+NET_OPS = ["K", "kf=scalar", "kr=scalar", "kr=zero", "kr=dict", "set_k=scalars"]
+NETHIST_OPS = ["h%d.%s" % (h, o) for h in (0, 1, 2) for o in NET_OPS] + ["netcopy"]
+
+
+def _h_ctx(rx):
+    text, sys3 = HIST_RX[rx]
+    sys3 = tuple(sys3)
+    s_terms, p_terms = R.parse(text)
+    n, m = R.order(s_terms), R.order(p_terms)
+    qsys = si.MIXED[3] if sys3 == si.MIXED[0] else si.MIXED[0]
+    return {"text": text, "sys": sys3, "us": uq.mk_sys(sys3), "s": s_terms, "p": p_terms, "n": n, "m": m,
+            "df": R.k_dimension(n), "dr": R.k_dimension(m), "qsys": qsys, "L": _universe(s_terms, p_terms)}
+
+
+def _h_val(c, which, form):
+    """The value an operation assigns (rebuilt identically each time it is needed)."""
+    dim = c["df"] if which == "kf" else c["dr"]
+    q = lambda v, f="str": _quantity(v, c["qsys"], dim, f)       # noqa: E731
+    if form == "bad":
+        return uq.mk_uv(3.5, c["qsys"], _add(dim, (1, 0, 0)))
+    if which == "kf":
+        return {"scalar": 7, "str": q(3.5), "dict": {"e1": 5, "default": q(2.5)}, "zero": 0,
+                "s1": 11, "s2": {"e1": 3, "e3": q(1.25)}, "init": 2}[form]
+    return {"scalar": 0.375, "str": q(0.125), "dict": {"e2": 0.25, "default": 1.5}, "zero": 0,
+            "s1": 13, "s2": 0, "s3": 17, "init": 4}[form]
+
+
+def _h_fresh(c, model):
+    return Reaction(c["text"], kf=_h_val(c, "kf", model[0]), kr=_h_val(c, "kr", model[1]), label="R",
+                    units_system=c["us"])
+
+
+def _same_K(a, b):
+    if a is None or b is None:
+        return None if (a is None and b is None) else "%r vs %r" % (a, b)
+    if isinstance(a, dict) != isinstance(b, dict):
+        return "%r vs %r" % (a, b)
+    if isinstance(a, dict):
+        if sorted(a) != sorted(b):
+            return "environment keys %s vs %s" % (sorted(a), sorted(b))
+        for k in sorted(a):
+            p = _same_K(a[k], b[k])
+            if p:
+                return "[%r] %s" % (k, p)
+        return None
+    return _same_const(a, b)
+
+
+def _h_readK(r, how):
+    try:
+        return ("ok", r.K if how == "K" else r.equilibrium_constant())
+    except Exception as e:
+        return ("exc", "%s: %s" % (type(e).__name__, e))
+
+
+def _h_cmpK(r, fresh, how, where, out, hist):
+    a, b = _h_readK(r, how), _h_readK(fresh, how)
+    if a[0] == "exc" or b[0] == "exc":
+        if a[0] != b[0]:      # both raising = the float-range limit of _in_float_range, not judged
+            out.append(("%s:history:%s:%s:exception-differs-from-fresh-reaction" % (PID, how, where),
+                        "after %s: object %s, fresh reaction %s" % (hist, a, b)))
+        return
+    p = _same_K(a[1], b[1])
+    if p:
+        out.append(("%s:history:%s:%s:differs-from-fresh-reaction" % (PID, how, where),
+                    "after %s: %s on the object is %r, on a fresh reaction with the same constants %r (%s)"
+                    % (hist, how, a[1], b[1], p)))
+
+
+def _h_observe(r, c, model, where, out, hist):
+    """All observers of r against a fresh Reaction(text, kf, kr) holding the model's constants."""
+    fresh = _h_fresh(c, model)
+    _h_cmpK(r, fresh, "K", where, out, hist)                    # K first: before anything recomputes it
+    _h_cmpK(r, fresh, "equilibrium_constant", where, out, hist)
+    for name, a, b in (("kf", r.kf, fresh.kf), ("kr", r.kr, fresh.kr)):
+        p = _same_const(a, b)
+        if p:
+            out.append(("%s:history:%s:%s:differs-from-fresh-reaction" % (PID, name, where),
+                        "after %s: %s is %r, expected %r (%s)" % (hist, name, a, b, p)))
+    L = c["L"]
+    es, ep = R.vector(c["s"], L), R.vector(c["p"], L)
+    if r.ssto(L) != es or r.psto(L) != ep or r.order() != c["n"] or r.rorder() != c["m"]:
+        out.append(("%s:history:stoichiometry:%s" % (PID, where), "after %s: %s -> %s over %s, orders %r/%r"
+                    % (hist, r.ssto(L), r.psto(L), L, r.order(), r.rorder())))
+    fd, rd = r.kf_units_dimensions(), r.kr_units_dimensions()
+    if (fd.space, fd.time, fd.quantity) != c["df"] or (rd.space, rd.time, rd.quantity) != c["dr"]:
+        out.append(("%s:history:units_dimensions:%s" % (PID, where), "after %s" % (hist,)))
+    if r.label != "R" or _us3(r.units_system) != c["sys"]:
+        out.append(("%s:history:label-or-units-system:%s" % (PID, where), "after %s: label %r, units system %s"
+                    % (hist, r.label, _us3(r.units_system))))
+    tag = "history:" + where
+    _check_split(r, c["s"], c["p"], L, tag, out, with_constants=True)
+    _check_K(r, c["n"], c["m"], tag, out)
+
+
+def _h_apply(r, c, model, op, out, hist, olds):
+    """Apply one operation; returns (r, model) (only 'swap' changes the object)."""
+    kf, kr = model
+    if op in ("K", "EC"):
+        _h_cmpK(r, _h_fresh(c, model), "K" if op == "K" else "equilibrium_constant", op, out, hist)
+    elif op.startswith("kf=") or op.startswith("kr="):
+        which, form = op.split("=")
+        if form == "bad":
+            try:
+                setattr(r, which, _h_val(c, which, "bad"))
+            except Exception:
+                return r, model
+            out.append(("%s:history:%s:wrong-dimension-accepted" % (PID, op), "after %s" % (hist,)))
+            return r, model
+        setattr(r, which, _h_val(c, which, form))
+        model = (form, kr) if which == "kf" else (kf, form)
+    elif op == "set_k=scalars":
+        r.set_k(_h_val(c, "kf", "s1"), _h_val(c, "kr", "s1"))
+        model = ("s1", "s1")
+    elif op == "set_k=dict+zero":
+        r.set_k(_h_val(c, "kf", "s2"), _h_val(c, "kr", "s2"))
+        model = ("s2", "s2")
+    elif op == "set_k=badkf":
+        try:
+            r.set_k(_h_val(c, "kf", "bad"), _h_val(c, "kr", "s3"))
+        except Exception:
+            # kf stays; whether the valid kr of a rejected set_k was taken is not decided by the statement
+            if _same_const(r.kr, _h_fresh(c, (kf, "s3")).kr) is None:
+                model = (kf, "s3")
+            return r, model
+        out.append(("%s:history:%s:wrong-dimension-accepted" % (PID, op), "after %s" % (hist,)))
+    elif op == "split":
+        r.split()
+    elif op == "to_string":
+        t = r.to_string()
+        r2 = Reaction(t)
+        if r2.ssto(c["L"]) != R.vector(c["s"], c["L"]) or r2.psto(c["L"]) != R.vector(c["p"], c["L"]):
+            out.append(("%s:history:to_string:vectors" % PID, "after %s: %r" % (hist, t)))
+    elif op == "dims":
+        r.kf_units_dimensions()
+        r.kr_units_dimensions()
+    elif op == "fork":          # a copy, modified: the copy is right, the original untouched (observed later)
+        cp = r.copy()
+        cp.kr = _h_val(c, "kr", "str")
+        _h_observe(cp, c, (kf, "str"), "fork:copy", out, hist)
+    elif op == "swap":          # go on with a copy; the abandoned original is observed again at the end
+        olds.append((r, model))
+        r = r.copy()
+    else:
+        raise ValueError(op)
+    return r, model
+
+
+def _case_hist(case, out):
+    c = _h_ctx(case["rx"])
+    ops, every = list(case["ops"]), case["mode"] == "every"
+    model = ("init", "init")
+    r = _h_fresh(c, model)
+    olds = []
+    done = []
+    for op in ops:
+        done.append(op)
+        hist = "%r, kf=2, kr=4, units %s; %s" % (c["text"], c["sys"], ", ".join(done))
+        r, model = _h_apply(r, c, model, op, out, hist, olds)
+        if out:
+            return           # minimal violating history: stop at the first deviation
+        if every:
+            _h_observe(r, c, model, "after:" + op, out, hist)
+            if out:
+                return
+    hist = "%r, kf=2, kr=4, units %s; %s" % (c["text"], c["sys"], ", ".join(done) or "(nothing)")
+    if not every:
+        _h_observe(r, c, model, "after:" + (ops[-1] if ops else "construction"), out, hist)
+    for o, mo in olds:
+        _h_observe(o, c, mo, "abandoned-original-after-copy", out, hist)
+
+
+def _case_nethist(case, out):
+    c = _h_ctx(case["rx"])
+    model0 = ("init", "init")
+    r = _h_fresh(c, model0)
+    other = Reaction("B -> A", kf=1, kr=1)
+    net1 = RDNetwork([Species("A"), Species("B"), Species("C")], [r])
+    net2 = RDNetwork([Species("C"), Species("B"), Species("A"), Species("D")], [other, r])
+    handles = [r, net1.reactions[0], net2.reactions[1]]
+    objs, models = [], []          # distinct objects (whether a network shares or copies is not claimed)
+    for h in handles:
+        if not any(h is o for o in objs):
+            objs.append(h)
+            models.append(model0)
+    done = []
+    for op in case["ops"]:
+        done.append(op)
+        hist = "%r in two networks; %s" % (c["text"], ", ".join(done))
+        if op == "netcopy":
+            nc = net1.copy()
+            rc = nc.reactions[0]
+            k = [i for i, o in enumerate(objs) if o is handles[1]][0]
+            rc.kr = _h_val(c, "kr", "str")
+            _h_observe(rc, c, (models[k][0], "str"), "netcopy:copy", out, hist)
+        else:
+            hs, o = op.split(".", 1)
+            h = handles[int(hs[1:])]
+            k = [i for i, x in enumerate(objs) if x is h][0]
+            _, models[k] = _h_apply(h, c, models[k], o, out, hist, [])
+        if out:
+            return
+        for i, o in enumerate(objs):
+            _h_observe(o, c, models[i], "network:after:" + op.split(".")[-1], out, hist)
+        if out:
+            return
+
+
+class SeqSpace:
+    """All operation sequences of length 0..maxlen over `ops` (shortest first, then lexicographic), for each
+    element of `heads` (a list of constant dictionaries)."""
+
+    def __init__(self, name, sub, heads, ops, maxlen):
+        self.name, self.sub, self.heads, self.ops, self.maxlen = name, sub, heads, ops, maxlen
+        self.per = sum(len(ops) ** k for k in range(maxlen + 1))
+        self.size = self.per * len(heads)
+
+    def at(self, i):
+        h, j = divmod(i, self.per)
+        k = 0
+        while j >= len(self.ops) ** k:
+            j -= len(self.ops) ** k
+            k += 1
+        seq = []
+        for _ in range(k):
+            j, d = divmod(j, len(self.ops))
+            seq.append(self.ops[d])
+        seq.reverse()
+        d = {"sub": self.sub}
+        d.update(self.heads[h])
+        d["ops"] = seq
+        return d
+
+
 _DISPATCH = {"eq": _case_eq, "kbare": _case_kbare, "kexp": _case_kexp, "kwrong": _case_kwrong,
-             "kdict": _case_kdict, "kdictwrong": _case_kdictwrong, "net": _case_net}
+             "kdict": _case_kdict, "kdictwrong": _case_kdictwrong, "net": _case_net,
+             "hist": _case_hist, "nethist": _case_nethist}
 
 
 def check_case(case):
@@ -714,7 +961,7 @@ def _spaces(tier):
         sp.append(Space("kexp/quick: orders 0..8 x 0..8 x reaction system (36) x quantity system cm/ms/µmol x {str, UnitValue}",
                         "kexp", [("n", ORDERS), ("m", ORDERS), ("sys", SYS36), ("qsys", [si.MIXED[3]]), ("qform", ["str", "UnitValue"])],
                         const={"form": "two"}))
-    sysw = sys8 if thorough else sys2      # the reaction's own system is irrelevant to a rejection; 36 are used where values land
+    sysw = sys8 if thorough else [si.MIXED[0]]      # the reaction's own system is irrelevant to a rejection; 36 are used where values land
     sp.append(Space("kwrong: orders 0..8 x 0..8 x {kf,kr} x 26 wrong dimensions x {str, UnitValue} x {ctor, setter, set_k} x %d reaction systems: must raise"
                     % len(sysw), "kwrong",
                     [("n", ORDERS), ("m", ORDERS), ("which", ["kf", "kr"]), ("off", CUBE_OFF), ("qform", ["str", "UnitValue"]),
@@ -746,6 +993,24 @@ def _spaces(tier):
                     build=lambda d: {"sub": "net", "species": d["species"],
                                      "reactions": [[], [("%s -> 2 %s" % (d["species"][0], d["species"][1]), "r")],
                                                    [("%s + %s -> Q" % (d["species"][1], d["species"][0]), None)]][d["rk"]]}))
+    # -- histories on one object (E2)
+    rx_all = list(range(len(HIST_RX)))
+    if thorough:
+        sp.append(SeqSpace("hist: every operation sequence of length <=3 over %d operations on one Reaction, 4 reactions (orders 1/1, 2/1, 0/2, 3/2), all observers after EVERY operation"
+                           % len(HIST_OPS), "hist", [{"rx": i, "mode": "every"} for i in rx_all], HIST_OPS, 3))
+        sp.append(SeqSpace("hist: every sequence of length <=4, 4 reactions, all observers after the last operation only (reads inside the sequence are checked as operations)",
+                           "hist", [{"rx": i, "mode": "last"} for i in rx_all], HIST_OPS, 4))
+        sp.append(SeqSpace("nethist: one Reaction shared by two RDNetworks: every sequence of length <=3 over %d operations (6 operations x 3 handles + network copy), 2 reactions"
+                           % len(NETHIST_OPS), "nethist", [{"rx": 0}, {"rx": 1}], NETHIST_OPS, 3))
+    else:
+        sp.append(SeqSpace("hist/quick: every operation sequence of length <=3 over %d operations on one Reaction (orders 2/1 and 0/2), all observers after EVERY operation"
+                           % len(HIST_OPS), "hist", [{"rx": 1, "mode": "every"}, {"rx": 2, "mode": "every"}], HIST_OPS, 3))
+        sp.append(SeqSpace("hist/quick: every sequence of length <=2, the other 2 reactions (orders 1/1, 3/2), observers after every operation",
+                           "hist", [{"rx": 0, "mode": "every"}, {"rx": 3, "mode": "every"}], HIST_OPS, 2))
+        sp.append(SeqSpace("hist/quick: every sequence of length <=3, 4 reactions, all observers after the last operation only",
+                           "hist", [{"rx": i, "mode": "last"} for i in rx_all], HIST_OPS, 3))
+        sp.append(SeqSpace("nethist/quick: one Reaction shared by two RDNetworks: every sequence of length <=2 over %d operations (6 operations x 3 handles + network copy), 2 reactions"
+                           % len(NETHIST_OPS), "nethist", [{"rx": 0}, {"rx": 1}], NETHIST_OPS, 2))
     return sp
 
 
@@ -757,6 +1022,8 @@ def _nontrivial(case):
         return len(case["reactions"]) > 0 or len(set(case["species"])) != len(case["species"])
     if sub == "kbare":
         return tuple(case["sys"]) != si.DEFAULT
+    if sub in ("hist", "nethist"):
+        return any(("=" in o) or o in ("fork", "swap", "netcopy") for o in case["ops"])
     return True
 
 
@@ -776,7 +1043,15 @@ def _work(job):
             continue
         res = check_case(case)
         sub = case["sub"]
-        ops = {"eq": 14, "kbare": 9, "kexp": 6, "kwrong": 2, "kdict": 6, "kdictwrong": 1, "net": 4}[sub]
+        ops = {"eq": 14, "kbare": 9, "kexp": 6, "kwrong": 2, "kdict": 6, "kdictwrong": 1, "net": 4,
+               "hist": 0, "nethist": 0}[sub]
+        if sub in ("hist", "nethist"):
+            k = len(case["ops"])
+            ops = k + 12 * (k if case.get("mode") != "last" else 1)
+            acc.count("history_operations", k)
+            if any(o.split(".")[-1].startswith(("kr=", "set_k")) for o in case["ops"]) and \
+               any(o.split(".")[-1] in ("K", "EC") for o in case["ops"]):
+                acc.count("histories_reading_K_and_changing_kr")
         acc.add(states=1, transitions=ops, traces=1, evaluations=1)
         if _nontrivial(case):
             nt += 1
